@@ -145,6 +145,23 @@ func zzC02Body(nENI, nV4, nV6, nPods, nOwners int, singleStackOnly bool) {
 				reported = req.IPv6
 			}
 			zz.Assert(zz.Implies(zz.And(mine, reported != ""), a.ip.IP == reported), "a pod that reports an address is re-adopted onto exactly that address")
+			for q := 0; q < nPods; q++ {
+				if q == p {
+					continue
+				}
+				other := pods[zzPodIDs[q]].IPv4
+				if a.v6 {
+					other = pods[zzPodIDs[q]].IPv6
+				}
+				// the other pod has no binding of this family in the record yet (else the record, not the report, is authoritative)
+				otherBound := false
+				for _, b := range all {
+					if b.v6 == a.v6 {
+						otherBound = zz.Or(otherBound, b.owner == zzPodIDs[q])
+					}
+				}
+				zz.Assert(zz.Implies(zz.And(mine, reported != a.ip.IP, !otherBound), other != a.ip.IP), "an address that a running pod of the request set reports as its own is never handed to another pod (take-over comes before free assignment)")
+			}
 			fresh := zz.And(mine, reported == "")
 			zz.Assert(zz.Implies(fresh, zz.And(a.ip.Status == networkv1beta1.IPStatusValid, a.eni.Status == aliyunClient.ENIStatusInUse)),
 				"a new binding is only made to a valid address on an attached, in-use interface")
